@@ -209,8 +209,13 @@ def run(tier, seed, replay=None):
     else:
         ps.ok = False
         ps.broken.append("driver missing: correspondence not run")
+    # the LITERAL Lean mirror of the Tarjan pass (proved equal to the specification, PV/Proofs/TarjanCorrect.lean + Properties/C11x.lean) against the
+    # real pass, on its INTERNAL state: emission order of the components, the index and the final low-link of every module
+    trace = None
+    if model is not None:
+        trace = C.driver_batch(["tarjan %d %s" % (n, " ".join("%d %d" % (u, v) for u, v in edges if u != v)) for n, edges in graphs])
     nontrivial, diffs = set(), 0
-    hist = {"with_cycles": 0, "severity": {}, "max_n": 0, "order_dependent": 0}
+    hist = {"with_cycles": 0, "severity": {}, "max_n": 0, "order_dependent": 0, "trace_compared": 0}
     for gi, ((n, edges), g) in enumerate(zip(graphs, go)):
         if "error" in g:
             res.violation("harness: " + g["error"], {"n": n, "edges": edges})
@@ -234,6 +239,11 @@ def run(tier, seed, replay=None):
                 bad = "severity counters / HasCircularDependencies inconsistent with the cycle list"
             elif model is not None and model[gi] != cr:
                 bad = "implementation `%s` differs from the proved model `%s` (Python reference SCCs: %s)" % (cr, model[gi], py_sccs(n, edges))
+            elif trace is not None and "raw" in r:
+                it = "%s|%s|%s|1" % (";".join(",".join(str(x) for x in c) for c in r["raw"]), ",".join(str(x) for x in r["indices"]), ",".join(str(x) for x in r["lowlinks"]))
+                hist["trace_compared"] += 1
+                if it != trace[gi]:
+                    bad = "the internal state of the Tarjan pass (components in emission order | indices | low-links) `%s` differs from the verified mirror's `%s`" % (it, trace[gi])
             if bad:
                 diffs += 1
                 res.violation("C11 fails on a %d-module graph: %s" % (n, bad), {"n": n, "edges": [list(e) for e in edges], "impl": r,
